@@ -90,6 +90,10 @@ def tasks(tier):
             # rest of the call (including its cancellation) on another
             out.append({"family": "await-points-thread-hop", "cfg": dict(cfg, thread_hop=True),
                         "entry": e, "bound": nf, "weight": 3})
+    # the final failure is classified with the application's own Enum, not an ErrorClass member
+    for init, e in itertools.product(BRK, WITH_RETRY):
+        cfg = dict(M=2, alphabet=["ok", "x:Z", "x:T", "r:Z"], breaker=BRK[init], max_unknown=None)
+        out.append({"family": "endings-foreign-class", "cfg": cfg, "entry": e, "bound": 0})
     # a breaker subclass whose truth value is False
     for init, e in itertools.product(BRK, WITH_RETRY + NO_RETRY):
         cfg = dict(M=2 if e in WITH_RETRY else 1, alphabet=ENDINGS0 if e in NO_RETRY else ENDINGS,
